@@ -909,23 +909,29 @@ def full(c):
     return [list(FULLH), c]
 
 
-def gen_exh_citations(idvars=(0, 1, 2, 3), statedvars=(0, 1, 2)):
-    """Every flat proof of <= 3 `verif_join` items with <= 2 citations each drawn from C; the stated
-    sequent of item k is the weakest one (`all ⊢ 10+k`), so whether the proof is accepted depends on
-    the citations only.  Variants: ids = positions / shifted by one / all 0 / negated-minus-one;
-    statements on all items / none / only even positions."""
-    C = [[-1], [0], [1], [2], [0, 0]]
-    menus = [[]] + [[c] for c in C] + [[c, d] for c in C for d in C]
-    for n in (1, 2, 3):
-        for cites in itertools.product(menus, repeat=n):
+CITE_C = [[-1], [0], [1], [2], [0, 0]]
+CITE_MENUS = [[]] + [[c] for c in CITE_C] + [[c, d] for c in CITE_C for d in CITE_C]
+
+
+def cite_case(cites, iv, sv):
+    items = []
+    for k in range(len(cites)):
+        id_ = [[k], [k + 1], [0], [-k - 1]][iv]
+        th = full(10 + k) if sv == 0 or (sv == 2 and k % 2 == 0) else None
+        items.append([id_, "verif_join", 10 + k, [list(c) for c in cites[k]], th, None])
+    return {"cfg": [False, False, 0], "thms": [], "items": items}
+
+
+def gen_exh_citations(idvars=(0, 1, 2, 3), statedvars=(0, 1, 2), sizes=(1, 2, 3)):
+    """Every flat proof of <= 3 `verif_join` items with <= 2 citations each drawn from CITE_C; the
+    stated sequent of item k is the weakest one (`all ⊢ 10+k`), so whether the proof is accepted
+    depends on the citations only.  Variants: ids = positions / shifted by one / all 0 /
+    negated-minus-one; statements on all items / none / only even positions."""
+    for n in sizes:
+        for cites in itertools.product(CITE_MENUS, repeat=n):
             for iv in idvars:
                 for sv in statedvars:
-                    items = []
-                    for k in range(n):
-                        id_ = [[k], [k + 1], [0], [-k - 1]][iv]
-                        th = full(10 + k) if sv == 0 or (sv == 2 and k % 2 == 0) else None
-                        items.append([id_, "verif_join", 10 + k, [list(c) for c in cites[k]], th, None])
-                    yield {"cfg": [False, False, 0], "thms": [], "items": items}
+                    yield cite_case(cites, iv, sv)
 
 
 def gen_exh_nesting():
@@ -1129,7 +1135,9 @@ class RandGen:
         tag = what
         if what == "id":
             k = r.randrange(6)
-            if k == 0:
+            if not it[0]:
+                it[0] = [r.randrange(3)]
+            elif k == 0:
                 it[0] = [it[0][-1] + r.choice([1, 2, 5])] if len(it[0]) == 1 else it[0][:-1] + [it[0][-1] + 1]
             elif k == 1:
                 it[0] = [-x - 1 for x in it[0]]
@@ -1270,6 +1278,7 @@ def stream_check(ctx, env, cases, label, oracle=True):
                         judge_check(ctx, case, res)
     if out is None:
         ctx.broken("correspondence:c02:driver", "model driver unavailable")
+    ctx.log("stream %s: %d cases, %d disagreements" % (label, len(cases), ndis))
     return ndis
 
 
@@ -1440,22 +1449,24 @@ def run(ctx):
             ctx.coverage["exhaustive_subspace"] = "all flat proofs of <=3 verif_join items, <=2 citations each from {-1,0,1,2,0.0}, 4 id assignments, 3 statement patterns"
         else:
             rng = ctx.rng("exh-sample")
-            allc = list(gen_exh_citations(idvars=(0,), statedvars=(0,)))
-            sample = [c for c in allc if len(c["items"]) <= 2] + rng.sample([c for c in allc if len(c["items"]) == 3], 3000)
-            others = list(gen_exh_citations(idvars=(1, 2, 3), statedvars=(0, 1, 2)))
-            sample += rng.sample(others, 3000)
+            sample = list(gen_exh_citations(idvars=(0,), statedvars=(0,), sizes=(1, 2)))
+            for _ in range(2500):
+                sample.append(cite_case([rng.choice(CITE_MENUS) for _ in range(3)], 0, 0))
+            for _ in range(2500):
+                sample.append(cite_case([rng.choice(CITE_MENUS) for _ in range(rng.choice([1, 2, 3, 3]))],
+                                        rng.randrange(4), rng.randrange(3)))
             stream_check(ctx, env, sample, "exh-cite")
         # (b) nesting, (c) statements
         stream_check(ctx, env, list(gen_exh_nesting()), "exh-nest")
         st = list(gen_exh_stated())
         if ctx.tier == "quick":
-            st = ctx.rng("stated").sample(st, min(len(st), 6000))
+            st = ctx.rng("stated").sample(st, min(len(st), 5000))
         for b in batches(iter(st), 40000):
             stream_check(ctx, env, b, "exh-stated")
         # (d) random
         g = RandGen(ctx.rng("random"))
         cases = []
-        for i in range(ctx.scale(6000, 120000)):
+        for i in range(ctx.scale(5000, 120000)):
             c, tags = g.case()
             cases.append(c)
             for t in tags:
